@@ -296,8 +296,19 @@ def _kernel_formula(ck, f, name, i, acc_leaves, F, FC, B):
         if not isinstance(r, (sp.Ge, sp.Gt)):
             rest.append(r)
             continue
+        sym_arg = r.rhs.args[0] if isinstance(r.rhs, sp.Abs) and not isinstance(X, sp.Abs) else None
         if equal(r.lhs, F) and r.rhs == eps:
             zero_guard = True
+        elif sym_arg is not None and X == diff and (equal(sym_arg, diff) or equal(sym_arg, -diff)) and up is None and lo is None:
+            # |f - fc| <= H : symmetric support written once
+            up, lo = r.lhs, -r.lhs
+            if isinstance(r, sp.Gt):
+                strict.append(r)
+        elif sym_arg is not None and X == ratio and (equal(sym_arg, sp.log(ratio) / sp.log(10)) or equal(sym_arg, -sp.log(ratio) / sp.log(10))) and up is None and lo is None:
+            # |log10(f/fc)| <= H
+            up, lo = sp.Integer(10) ** r.lhs, sp.Integer(10) ** (-r.lhs)
+            if isinstance(r, sp.Gt):
+                strict.append(r)
         elif equal(r.rhs, X) and up is None:
             up = r.lhs
             if isinstance(r, sp.Gt):
@@ -395,6 +406,18 @@ def _sg(ck: Checker, prog: Program):
             if isinstance(it, ast.Call) and call_name(it) == "enumerate" and isinstance(it.args[0], ast.Call) and call_name(it.args[0]) == "range" \
                     and isinstance(lp.target, ast.Tuple) and unparse(st[0].targets[0].slice) == unparse(lp.target.elts[0]):
                 elt, ivar, at, rng = st[0].value, unparse(lp.target.elts[1]), st[0], it.args[0]
+    if elt is None:
+        # vectorised: C[:] = E(offsets) / C = E(offsets) with offsets = np.arange(A, B)
+        cands = [st for st in f.node.body if isinstance(st, ast.Assign) and len(st.targets) == 1 and (
+            (isinstance(st.targets[0], ast.Name) and st.targets[0].id == carg.id) or
+            (isinstance(st.targets[0], ast.Subscript) and unparse(st.targets[0].value) == carg.id and unparse(st.targets[0].slice) in (":", "...")))]
+        for st in cands:
+            for nm in {x.id for x in ast.walk(st.value) if isinstance(x, ast.Name)}:
+                d = [y for y in f.node.body if isinstance(y, ast.Assign) and len(y.targets) == 1 and isinstance(y.targets[0], ast.Name) and y.targets[0].id == nm
+                     and isinstance(y.value, ast.Call) and call_name(y.value) == "arange" and len(y.value.args) == 2]
+                if len(d) == 1:
+                    res.keep.add(nm)
+                    elt, ivar, at, rng = st.value, nm, st, d[0].value
     if elt is None:
         raise AnalysisError(f"{q}: construction of the coefficient table `{carg.id}` not recognised")
     rargs = [val(a, at) for a in rng.args]
